@@ -69,15 +69,19 @@ fn gamma(a: Decimal) -> Decimal {
     }
 }
 
+const OVERFLOW: &str = "Decimal overflow";
+const DIVISION: &str = "Division by zero or decimal overflow";
+const DOMAIN: &str = "Argument outside the domain of the function";
+
 pub fn eval(expr: Node) -> Result<Decimal, Box<dyn error::Error>> {
     use self::Node::*;
     match expr {
         Number(i) => Ok(i),
-        Add(expr1, expr2) => Ok(eval(*expr1)? + eval(*expr2)?),
-        Subtract(expr1, expr2) => Ok(eval(*expr1)? - eval(*expr2)?),
-        Multiply(expr1, expr2) => Ok(eval(*expr1)? * eval(*expr2)?),
-        Divide(expr1, expr2) => Ok(eval(*expr1)? / eval(*expr2)?),
-        Modulo(expr1, expr2) => Ok(eval(*expr1)? % eval(*expr2)?),
+        Add(expr1, expr2) => Ok(eval(*expr1)?.checked_add(eval(*expr2)?).ok_or(OVERFLOW)?),
+        Subtract(expr1, expr2) => Ok(eval(*expr1)?.checked_sub(eval(*expr2)?).ok_or(OVERFLOW)?),
+        Multiply(expr1, expr2) => Ok(eval(*expr1)?.checked_mul(eval(*expr2)?).ok_or(OVERFLOW)?),
+        Divide(expr1, expr2) => Ok(eval(*expr1)?.checked_div(eval(*expr2)?).ok_or(DIVISION)?),
+        Modulo(expr1, expr2) => Ok(eval(*expr1)?.checked_rem(eval(*expr2)?).ok_or(DIVISION)?),
         Negative(expr1) => Ok(-(eval(*expr1)?)),
         Abs(sub_expr) => Ok(eval(*sub_expr)?.abs()),
         Floor(sub_expr) => Ok(eval(*sub_expr)?.floor()),
@@ -85,12 +89,24 @@ pub fn eval(expr: Node) -> Result<Decimal, Box<dyn error::Error>> {
         Round(sub_expr) => Ok(eval(*sub_expr)?.round()),
         Truncate(sub_expr) => Ok(eval(*sub_expr)?.trunc()),
         Sign(sub_expr) => Ok(eval(*sub_expr)?.signum()),
-        Ln(sub_expr) => Ok(eval(*sub_expr)?.ln()),
-        Lb(sub_expr) => Ok(eval(*sub_expr)?.ln() / Decimal::new(2, 0).ln()),
-        Exp(sub_expr) => Ok(eval(*sub_expr)?.exp()),
-        Exp2(sub_expr) => Ok(Decimal::new(2, 0).powd(eval(*sub_expr)?)),
-        Pow(expr1, expr2) => Ok(eval(*expr1)?.powd(eval(*expr2)?)),
-        Log(expr1, expr2) => Ok(eval(*expr1)?.ln() / eval(*expr2)?.ln()),
+        Ln(sub_expr) => Ok(eval(*sub_expr)?.checked_ln().ok_or(DOMAIN)?),
+        Lb(sub_expr) => Ok(eval(*sub_expr)?
+            .checked_ln()
+            .ok_or(DOMAIN)?
+            .checked_div(Decimal::new(2, 0).ln())
+            .ok_or(OVERFLOW)?),
+        Exp(sub_expr) => Ok(eval(*sub_expr)?.checked_exp().ok_or(OVERFLOW)?),
+        Exp2(sub_expr) => Ok(Decimal::new(2, 0)
+            .checked_powd(eval(*sub_expr)?)
+            .ok_or(OVERFLOW)?),
+        Pow(expr1, expr2) => Ok(eval(*expr1)?
+            .checked_powd(eval(*expr2)?)
+            .ok_or(OVERFLOW)?),
+        Log(expr1, expr2) => {
+            let numerator = eval(*expr1)?.checked_ln().ok_or(DOMAIN)?;
+            let denominator = eval(*expr2)?.checked_ln().ok_or(DOMAIN)?;
+            Ok(numerator.checked_div(denominator).ok_or(DIVISION)?)
+        }
         Factorial(sub_expr) => {
             let sub_result = eval(*sub_expr)?;
             if sub_result >= Decimal::ZERO {
@@ -98,8 +114,10 @@ pub fn eval(expr: Node) -> Result<Decimal, Box<dyn error::Error>> {
                     Ok(gamma(sub_result + Decimal::new(1, 0)))
                 } else {
                     let mut factorial_result = Decimal::new(1, 0);
-                    for i in 2..=sub_result.to_i64().unwrap() {
-                        factorial_result *= Decimal::new(i, 0);
+                    for i in 2..=sub_result.to_i64().ok_or(OVERFLOW)? {
+                        factorial_result = factorial_result
+                            .checked_mul(Decimal::new(i, 0))
+                            .ok_or(OVERFLOW)?;
                     }
                     Ok(factorial_result)
                 }
@@ -142,12 +160,18 @@ pub fn eval(expr: Node) -> Result<Decimal, Box<dyn error::Error>> {
             Some(result) => Ok(result),
             None => Err("Unable to compute the square root of negative number".into()),
         },
-        Root(n_th_expr, x_expr) => Ok(eval(*x_expr)?.powd(Decimal::new(1, 0) / eval(*n_th_expr)?)),
+        Root(n_th_expr, x_expr) => {
+            let x = eval(*x_expr)?;
+            let exponent = Decimal::new(1, 0)
+                .checked_div(eval(*n_th_expr)?)
+                .ok_or(DIVISION)?;
+            Ok(x.checked_powd(exponent).ok_or(OVERFLOW)?)
+        }
         Min(args) => {
             if args.len() > 1 {
                 let mut result = Decimal::MAX;
                 for arg in <Vec<Node> as Clone>::clone(&args).into_iter() {
-                    result = eval(arg).unwrap().min(result);
+                    result = eval(arg)?.min(result);
                 }
                 Ok(result)
             } else {
@@ -161,7 +185,7 @@ pub fn eval(expr: Node) -> Result<Decimal, Box<dyn error::Error>> {
             if args.len() > 1 {
                 let mut result = Decimal::MIN;
                 for arg in <Vec<Node> as Clone>::clone(&args).into_iter() {
-                    result = eval(arg).unwrap().max(result);
+                    result = eval(arg)?.max(result);
                 }
                 Ok(result)
             } else {
@@ -174,19 +198,25 @@ pub fn eval(expr: Node) -> Result<Decimal, Box<dyn error::Error>> {
         Avg(args) => {
             let mut result = Decimal::ZERO;
             for arg in <Vec<Node> as Clone>::clone(&args).into_iter() {
-                result += eval(arg).unwrap();
+                result = result.checked_add(eval(arg)?).ok_or(OVERFLOW)?;
             }
-            Ok(result / Decimal::new(args.len() as i64, 0))
+            Ok(result
+                .checked_div(Decimal::new(args.len() as i64, 0))
+                .ok_or(DIVISION)?)
         }
         Med(args) => {
             let mut results = vec![];
             for arg in <Vec<Node> as Clone>::clone(&args).into_iter() {
-                results.push(eval(arg).unwrap());
+                results.push(eval(arg)?);
             }
             results.sort_by(|a, b| a.partial_cmp(b).unwrap());
             let len = results.len();
             if len % 2 == 0 {
-                Ok((results[len >> 1] + results[(len >> 1) - 1]) / Decimal::new(2, 0))
+                Ok(results[len >> 1]
+                    .checked_add(results[(len >> 1) - 1])
+                    .ok_or(OVERFLOW)?
+                    .checked_div(Decimal::new(2, 0))
+                    .ok_or(DIVISION)?)
             } else {
                 Ok(results[len >> 1])
             }
